@@ -4,12 +4,13 @@
    (absolute or compact) whose values are strings, integers, booleans, references {"@id": ..} or embedded node
    objects, singly or in arrays, possibly repeated.  [denote] = the triples the document states;
    [to_graph] = the flattened, indexed form the policy evaluates (input["@ids"]): one node per subject, one
-   entry per predicate, each value once.  Type coercion, @vocab, @container, @reverse, @list, language maps,
+   entry per predicate, each value once.  @vocab is modelled for bare terms in predicate and @type position
+   (a term defined by the context takes precedence).  Type coercion, @container, @reverse, @list, language maps,
    remote contexts, blank nodes and general IRI resolution are outside the fragment. *)
 From ACV Require Import Base.Strs Model.Graph.
 Local Open Scope string_scope.
 
-Inductive sid := IAbs (iri : string) | ICompact (prefix local : string) | IRel (suffix : string).
+Inductive sid := IAbs (iri : string) | ICompact (prefix local : string) | IRel (suffix : string) | IVocab (term : string).
 Inductive sval :=
 | SStr (s : string) | SInt (z : Z) | SBool (b : bool) | SRef (i : sid) | SEmbed (n : snode)
 with snode := SNode (id : sid) (types : list sid) (props : list (sid * list sval)).
@@ -21,6 +22,12 @@ Definition expand (ctx : list (string * string)) (base : string) (i : sid) : str
   | IAbs iri => iri
   | ICompact p l => match assoc p ctx with Some ns => ns ++ l | None => p ++ ":" ++ l end
   | IRel s => base ++ s
+  (* a bare term in predicate / @type position: a term the context defines wins over @vocab (kept in the
+     context list under the key "@vocab") *)
+  | IVocab l => match assoc l ctx with
+                | Some ns => ns
+                | None => match assoc "@vocab" ctx with Some v => v ++ l | None => l end
+                end
   end.
 
 Definition triple := (string * string * value)%type.
